@@ -145,9 +145,9 @@ PROPS = {
     "C12": {
         "title": "Genesis export/import preserves state and subsequent behaviour",
         "model": "Genesis.v: minter / distributor / vesting-type / signature export and import",
-        "runs": [app(160, 5000), vgenesis(300, 10000)],
+        "runs": [app(160, 5000), vgenesis(300, 10000), vest("pools", 60, 2000)],
         "preds": ["C12.", "C10.block_processing_no_panic_after_import"],
-        "rule": APP_RULE + " | " + VGENESIS_RULE,
+        "rule": APP_RULE + " | " + VGENESIS_RULE + " | " + VEST_RULE + " (C12: the vesting genesis exported after every history must pass its own validation)",
         "partial": ["the lineage traces and vesting types of the vesting genesis and the SDK modules' own export/import are covered by the "
                     "comparisons on the implementation only (module-level export / re-import / re-export equality, application-level re-export equality "
                     "and identical behaviour of the restored application), not by a Coq theorem; the pool store is"],
@@ -414,7 +414,8 @@ PROPS = {
         "title": "Genesis lineage of vesting accounts and vesting summaries are accurate",
         "model": "Vest.v: traces in send/split, summary; AccountsProofs.v: Derived",
         "runs": [vest("", 120, 4000), vest("split", 80, 3000),
-                 {"kind": "upgrade", "profile": "", "n_quick": 150, "n_thorough": 5000, "per_shard": 20, "env": {"TZ": "UTC"}}],
+                 {"kind": "upgrade", "profile": "", "n_quick": 150, "n_thorough": 5000, "per_shard": 20, "env": {"TZ": "UTC"}},
+                 vgenesis(120, 4000)],
         "preds": ["C17."],
         "rule": VEST_RULE + "; the harness keeps an independent lineage oracle and recomputes both summaries from bank/auth state; the v1.2.0 upgrade on generated legacy stores (where the genesis marks of the pools come from)",
         "level_text": "Coq theorems: for every history (any length, any depth of split chains) an address is recorded genesis-derived iff it is "
